@@ -76,11 +76,10 @@ func BuilderEnds(w *World, rel string) *report.RuleResult {
 		}
 		var bad []string
 		fresh := ""
+		var freshes []string // one per path when the combinator delegates to different combinators on different paths
 		for o := range rets {
 			if strings.HasPrefix(o, "fresh#") {
-				if fresh != "" && fresh != o {
-					bad = append(bad, "the result comes from different allocations on different paths")
-				}
+				freshes = append(freshes, o)
 				fresh = o
 			} else {
 				bad = append(bad, "returns "+o+" instead of a position obtained from the pool by this call (two nodes would share one Position object)")
@@ -119,51 +118,57 @@ func BuilderEnds(w *World, rel string) *report.RuleResult {
 			}
 			return "?"
 		}
-		for _, fld := range []struct {
-			name string
-			end  bool
-			f    string
-		}{{"StartLine", false, "Line"}, {"StartPos", false, "Pos"}, {"EndLine", true, "Line"}, {"EndPos", true, "Pos"}} {
-			got := be.stores[fresh+"."+fld.name]
-			if len(got) == 0 {
-				bad = append(bad, fld.name+" of the new position is never assigned")
-				continue
-			}
-			allowed := map[string]bool{"const:-1": true}
-			var mains []string
-			if fld.end {
-				m := boundary(len(params), params[len(params)-1], true, fld.f)
-				allowed[m] = true
-				mains = append(mains, m)
-			} else {
-				m := boundary(1, params[0], false, fld.f)
-				allowed[m] = true
-				mains = append(mains, m)
-				if kind(params[0]) == "list" && len(params) > 2 {
-					// an optional list in front: the start may be that of the next parameter
-					m2 := boundary(2, params[1], false, fld.f)
-					allowed[m2] = true
-					mains = append(mains, m2)
+		sort.Strings(freshes)
+		if len(freshes) == 0 {
+			freshes = []string{""}
+		}
+		for _, fresh := range freshes {
+			for _, fld := range []struct {
+				name string
+				end  bool
+				f    string
+			}{{"StartLine", false, "Line"}, {"StartPos", false, "Pos"}, {"EndLine", true, "Line"}, {"EndPos", true, "Pos"}} {
+				got := be.stores[fresh+"."+fld.name]
+				if len(got) == 0 {
+					bad = append(bad, fld.name+" of the new position is never assigned")
+					continue
 				}
-			}
-			var gl []string
-			for o := range got {
-				gl = append(gl, o)
-			}
-			sort.Strings(gl)
-			hasMain := false
-			for _, o := range gl {
-				if !allowed[o] {
-					bad = append(bad, fmt.Sprintf("%s is assigned %s; the %s boundary is %s", fld.name, o, map[bool]string{false: "start", true: "end"}[fld.end], strings.Join(mains, " or ")))
-				}
-				for _, m := range mains {
-					if o == m {
-						hasMain = true
+				allowed := map[string]bool{"const:-1": true}
+				var mains []string
+				if fld.end {
+					m := boundary(len(params), params[len(params)-1], true, fld.f)
+					allowed[m] = true
+					mains = append(mains, m)
+				} else {
+					m := boundary(1, params[0], false, fld.f)
+					allowed[m] = true
+					mains = append(mains, m)
+					if kind(params[0]) == "list" && len(params) > 2 {
+						// an optional list in front: the start may be that of the next parameter
+						m2 := boundary(2, params[1], false, fld.f)
+						allowed[m2] = true
+						mains = append(mains, m2)
 					}
 				}
-			}
-			if !hasMain {
-				bad = append(bad, fmt.Sprintf("%s is never taken from %s (only %s)", fld.name, strings.Join(mains, " / "), strings.Join(gl, ", ")))
+				var gl []string
+				for o := range got {
+					gl = append(gl, o)
+				}
+				sort.Strings(gl)
+				hasMain := false
+				for _, o := range gl {
+					if !allowed[o] {
+						bad = append(bad, fmt.Sprintf("%s is assigned %s; the %s boundary is %s", fld.name, o, map[bool]string{false: "start", true: "end"}[fld.end], strings.Join(mains, " or ")))
+					}
+					for _, m := range mains {
+						if o == m {
+							hasMain = true
+						}
+					}
+				}
+				if !hasMain {
+					bad = append(bad, fmt.Sprintf("%s is never taken from %s (only %s)", fld.name, strings.Join(mains, " / "), strings.Join(gl, ", ")))
+				}
 			}
 		}
 		if len(bad) == 0 {
